@@ -24,6 +24,9 @@ type fieldProcessInfo struct {
 	isNumberLiteral bool   // Whether it's a numeric literal
 	numberValue     any    // Pre-parsed numeric literal value (int64 or float64)
 	alias           string // Field alias for quick access
+
+	// Pre-compiled expression for items like "s LIKE 'a%'" or "s IS NULL"
+	compiledExpr *expr.Expression
 }
 
 // expressionProcessInfo expression processing information for caching pre-compiled expression processing logic
@@ -307,6 +310,9 @@ func (s *Stream) compileSimpleFieldInfo(fieldSpec string) *fieldProcessInfo {
 	// Check if it's a numeric literal (SELECT 7 AS r, SELECT 0.5 AS r); a
 	// backtick-quoted name such as `7` stays a column reference
 	info.numberValue, info.isNumberLiteral = parseNumberLiteral(info.fieldName)
+	// A column reference has no blank outside quotes; an item that has one and is
+	// neither a literal nor a call (s LIKE 'a%', s IS NULL) is an expression
+	isExpression := !info.isNumberLiteral && hasUnquotedBlank(info.fieldName)
 	// Remove backticks from field name
 	if len(info.fieldName) >= 2 && info.fieldName[0] == '`' && info.fieldName[len(info.fieldName)-1] == '`' {
 		info.fieldName = info.fieldName[1 : len(info.fieldName)-1]
@@ -334,10 +340,37 @@ func (s *Stream) compileSimpleFieldInfo(fieldSpec string) *fieldProcessInfo {
 		info.stringValue = info.fieldName[1 : len(info.fieldName)-1]
 	}
 
+	// Pre-compile expression items that are not function calls
+	if isExpression && !info.isStringLiteral && !info.isFunctionCall {
+		if compiledExpr, err := expr.NewExpression(info.fieldName); err == nil {
+			info.compiledExpr = compiledExpr
+			info.hasNestedField = false
+		}
+	}
+
 	// Set alias for quick access
 	info.alias = info.outputName
 
 	return info
+}
+
+// hasUnquotedBlank reports whether text contains a blank outside of quotes and
+// backticks.
+func hasUnquotedBlank(text string) bool {
+	quote := byte(0)
+	for i := 0; i < len(text); i++ {
+		c := text[i]
+		if quote != 0 {
+			if c == quote {
+				quote = 0
+			}
+		} else if c == '\'' || c == '"' || c == '`' {
+			quote = c
+		} else if c == ' ' || c == '\t' {
+			return true
+		}
+	}
+	return false
 }
 
 // parseNumberLiteral parses an unsigned or signed decimal number literal. Only
@@ -394,23 +427,22 @@ func (s *Stream) compileExpressionInfo() {
 			s.hasUnnestFunction = true
 		}
 
-		// Pre-compile expression object (only for non-function call expressions)
-		if !exprInfo.isFunctionCall {
-			exprToCompile := fieldExpr.Expression
-			if exprInfo.needsBacktickPreprocess {
-				if processed, err := bridge.PreprocessBacktickIdentifiers(exprToCompile); err == nil {
-					exprToCompile = processed
-				}
+		// Pre-compile expression object. For expressions containing parentheses it
+		// is only the fallback when the bridge cannot evaluate the text.
+		exprToCompile := fieldExpr.Expression
+		if exprInfo.needsBacktickPreprocess {
+			if processed, err := bridge.PreprocessBacktickIdentifiers(exprToCompile); err == nil {
+				exprToCompile = processed
 			}
-			if compiledExpr, err := expr.NewExpression(exprToCompile); err == nil {
-				exprInfo.compiledExpr = compiledExpr
-				// Fast path: when compiledExpr is available and the expression has no
-				// quote/backtick characters (so it is not string concatenation or a
-				// quoted identifier), evaluate directly via compiledExpr and skip the
-				// bridge's per-row isStringConcatenation/usesExprFunction checks.
-				if !strings.ContainsAny(fieldExpr.Expression, "'\"`") {
-					exprInfo.compiledExprFastPath = true
-				}
+		}
+		if compiledExpr, err := expr.NewExpression(exprToCompile); err == nil {
+			exprInfo.compiledExpr = compiledExpr
+			// Fast path: when compiledExpr is available and the expression has no
+			// quote/backtick characters (so it is not string concatenation or a
+			// quoted identifier), evaluate directly via compiledExpr and skip the
+			// bridge's per-row isStringConcatenation/usesExprFunction checks.
+			if !exprInfo.isFunctionCall && !strings.ContainsAny(fieldExpr.Expression, "'\"`") {
+				exprInfo.compiledExprFastPath = true
 			}
 		}
 
@@ -431,8 +463,10 @@ func (s *Stream) processExpressionField(fieldName string, dataMap map[string]any
 	bridge := functions.GetExprBridge()
 
 	if exprInfo.isFunctionCall {
-		// For function calls, use bridge processor
-		exprResult, err := bridge.EvaluateExpression(exprInfo.processedExpr, dataMap)
+		// For function calls, use bridge processor. Texts in SQL syntax that
+		// expr-lang cannot compile, e.g. (a = b), (p AND q), upper(s) = 'AB' or
+		// CASE WHEN (...) THEN ... END, fall back to the SQL expression engine.
+		exprResult, err := evaluateWithFallback(exprInfo.processedExpr, exprInfo.compiledExpr, dataMap)
 		if err != nil {
 			s.log.Error("Function call evaluation failed for field %s: %v", fieldName, err)
 			result[fieldName] = nil
@@ -508,6 +542,32 @@ func (s *Stream) processExpressionField(fieldName string, dataMap map[string]any
 	}
 
 	result[fieldName] = evalResult
+}
+
+// evaluateWithFallback evaluates a scalar expression through the bridge and, when
+// the bridge cannot evaluate it, through the SQL expression engine. compiled may
+// be nil, in which case the text is parsed on demand. The bridge's error is
+// reported when both fail.
+func evaluateWithFallback(exprText string, compiled *expr.Expression, data map[string]any) (any, error) {
+	result, err := functions.GetExprBridge().EvaluateExpression(exprText, data)
+	if err == nil {
+		return result, nil
+	}
+	if compiled == nil {
+		parsed, parseErr := expr.NewExpression(exprText)
+		if parseErr != nil {
+			return nil, err
+		}
+		compiled = parsed
+	}
+	value, isNull, evalErr := compiled.EvaluateValueWithNull(data)
+	if evalErr != nil {
+		return nil, err
+	}
+	if isNull {
+		return nil, nil
+	}
+	return value, nil
 }
 
 // processExpressionFieldFallback fallback logic for expression field processing
@@ -657,6 +717,14 @@ func (s *Stream) processSimpleField(fieldSpec string, dataMap map[string]any, da
 			s.log.Error("Function execution error %s: %v", info.fieldName, err)
 			result[info.outputName] = nil
 		}
+	} else if info.compiledExpr != nil {
+		// Expression item: same evaluation as for expression fields
+		if exprResult, err := evaluateWithFallback(info.fieldName, info.compiledExpr, dataMap); err == nil {
+			result[info.outputName] = exprResult
+		} else {
+			s.log.Error("Expression evaluation failed for field %s: %v", info.fieldName, err)
+			result[info.outputName] = nil
+		}
 	} else {
 		// Ordinary field processing
 		var value any
@@ -783,8 +851,7 @@ func (s *Stream) executeFunction(funcExpr string, data map[string]any) (any, err
 
 	// For complex nested function calls, use ExprBridge directly
 	// This avoids the float64 type limitation of Expression.Evaluate
-	bridge := functions.GetExprBridge()
-	result, err := bridge.EvaluateExpression(funcExpr, data)
+	result, err := evaluateWithFallback(funcExpr, nil, data)
 	if err != nil {
 		return nil, fmt.Errorf("evaluate function expression failed: %w", err)
 	}
